@@ -363,18 +363,19 @@ theorem Inv.clientLoan {w : World} (hI : Inv w) (c l : Nat) :
           · next ch ids hids =>
             have hf6 := h2.f.f6 c C0 hcl2
             have hcfg2 : (setSnd w1 (cid c) S').cfg = w.cfg := hcfg1
-            have h3 := h2.setCl_frame' (C' := { C0 with chanIds := ids, ridCtr := C0.ridCtr + 1, loanCnt := C0.loanCnt + 1 }) hcl2 rfl rfl
-              rfl (fun P hP => Nat.lt_succ_of_lt (h2.cl1 c C0 P hcl2 hP)) (h2.cl2 c C0 hcl2)
+            have h3 := h2.setCl (C' := { C0 with chanIds := ids, ridCtr := C0.ridCtr + 1, loanCnt := C0.loanCnt + 1 }) hcl2 rfl rfl
+              (Nat.le_succ _) (fun P hP => Nat.lt_succ_of_lt (h2.cl1 c C0 P hcl2 hP)) (h2.cl2 c C0 hcl2)
               (fun P hP m hm => h2.x.g1 c C0 P m hcl2 hP hm) (h2.x.cl3 c C0 hcl2)
-              (h2.y.setCl_sub hcl2 (fun P hP => Or.inl ⟨P, hP, rfl, rfl⟩)) rfl
+              (h2.y.setCl_sub hcl2 (fun P hP => Or.inl ⟨P, hP, rfl, rfl⟩)) (Nat.le_refl _)
               (h2.f.setCl_sub hcl2 (List.Sublist.refl _) (fun P' hP' => ⟨P', hP', rfl⟩) (Nat.le_succ _)
                 (by
                   show C0.qloans.length ≤ C0.loanCnt + 1 ∧ C0.loanCnt + 1 ≤ (setSnd w1 (cid c) S').cfg.maxLoans
-                  rw [hcfg2]; omega))
+                  rw [hcfg2] at hf6 ⊢; omega))
             refine ⟨h3, fun q hq => ?_⟩
             simp only [Option.some.injEq] at hq
             subst hq
-            refine ⟨_, by simp, Nat.lt_succ_self _, fun P hP => Nat.ne_of_lt (hI.cl1 c C0 P hC0 hP),
+            refine ⟨{ C0 with chanIds := ids, ridCtr := C0.ridCtr + 1, loanCnt := C0.loanCnt + 1 }, by rw [getCl_setCl]; exact if_pos rfl,
+              Nat.lt_succ_self _, fun P hP => Nat.ne_of_lt (hI.cl1 c C0 P hC0 hP),
               fun q hq => Nat.ne_of_lt (hI.f.f1 c C0 q hC0 hq), ?_, Nat.lt_succ_of_le hf6.1⟩
             exact (hq1.of_same (w' := setSnd w1 (cid c) S') rfl rfl).of_same rfl rfl
 
@@ -417,7 +418,9 @@ theorem Inv.opSend {w : World} (hI : Inv w) (c r tag : Nat) : Inv (opSend w c r 
         · next w1 out heq => rw [heq] at h1; exact h1
         · next w1 q _ heq =>
           rw [heq] at h1 hok
-          exact h1.clientSendLoan c q r tag (hok q rfl)
+          have h1 : Inv w1 := h1
+          have hok : LoanOk w1 c q.rid := hok q rfl
+          exact h1.clientSendLoan c q r tag hok
 
 theorem mem_pairwise_qrid {l : List QLoan} (h : l.Pairwise (fun a b => a.rid ≠ b.rid)) {a b : QLoan} (ha : a ∈ l) (hb : b ∈ l)
     (hab : a.rid = b.rid) : a = b := by
@@ -447,8 +450,9 @@ theorem Inv.opQLoan {w : World} (hI : Inv w) (c l : Nat) : Inv (opQLoan w c l).1
         · next w1 out heq => rw [heq] at h1; exact h1
         · next w1 q _ heq =>
           rw [heq] at h1 hok
-          obtain ⟨C, hC, hlt, hnp, hnq, hqb, hlen⟩ := hok q rfl
-          simp only [] at hC hqb
+          have h1 : Inv w1 := h1
+          have hok : LoanOk w1 c q.rid := hok q rfl
+          obtain ⟨C, hC, hlt, hnp, hnq, hqb, hlen⟩ := hok
           rw [hC]
           simp only []
           have hf6 := h1.f.f6 c C hC
@@ -499,7 +503,8 @@ theorem Inv.takeLoan {w : World} (hI : Inv w) (c l : Nat) (C : Client) (q : QLoa
       (hI.y.setCl_sub hC (fun P hP => Or.inl ⟨P, hP, rfl, rfl⟩)) rfl
       (hI.f.setCl_sub hC List.filter_sublist (fun P' hP' => ⟨P', hP', rfl⟩) (Nat.le_refl _)
         (by show (C.qloans.filter (·.label ≠ l)).length ≤ C.loanCnt ∧ C.loanCnt ≤ w.cfg.maxLoans; omega))
-  · refine ⟨_, by simp, hI.f.f1 c C q hC hq, fun P hP => hI.f.f3 c C q P hC hq hP, ?_, ?_, ?_⟩
+  · refine ⟨{ C with qloans := C.qloans.filter (·.label ≠ l) }, by rw [getCl_setCl]; exact if_pos rfl,
+      hI.f.f1 c C q hC hq, fun P hP => hI.f.f3 c C q P hC hq hP, ?_, ?_, ?_⟩
     · intro q' hq' e
       obtain ⟨hq1, hq2⟩ := List.mem_filter.mp hq'
       have := mem_pairwise_qrid (hI.f.f2 c C hC) hq1 hq e
@@ -542,12 +547,15 @@ theorem Inv.opQDrop {w : World} (hI : Inv w) (c l : Nat) : Inv (opQDrop w c l).1
 /-- what is known about a request handed out by `Server::receive` -/
 def RecvOk (s : Nat) (w : World) (m : Msg) : Prop :=
   MsgOk w m ∧
-  (∀ V v', getSv w s = some V → (m.client, v') ∈ V.gRecvReq → v' < m.rid) ∧
+  (∀ V q', getSv w s = some V → (m.client, q') ∈ V.gRecvSeq → q' < m.gSeq) ∧
+  (∀ V v', getSv w s = some V → (m.client, v') ∈ V.gRecvReq → v' ≠ m.rid) ∧
   (∀ (conn : Conn) (x : Chan) (e : Entry), getConn w (cid m.client) (sid s) = some conn → conn.chans[0]? = some x →
-    e ∈ x.sub → m.rid < e.msg.rid)
+    e ∈ x.sub → m.gSeq < e.msg.gSeq ∧ m.rid ≠ e.msg.rid) ∧
+  (∀ C (q : QLoan), getCl w m.client = some C → q ∈ C.qloans → m.rid ≠ q.rid)
 
 /-- the loop of `Server::receive`: the invariant is kept, and a returned request was written by a known
-client, is newer than everything handed out before and older than everything still queued -/
+client, was sent after everything handed out before and before everything still queued, and its request id
+differs from all of those and from every loan -/
 theorem serverReceive_inv (s : Nat) (fuel : Nat) (w : World) (hI : Inv w) :
     Inv (serverReceive w s fuel).1 ∧
     ∀ h m, (serverReceive w s fuel).2 = some (.some h m) → RecvOk s (serverReceive w s fuel).1 m := by
@@ -572,16 +580,23 @@ theorem serverReceive_inv (s : Nat) (fuel : Nat) (w : World) (hI : Inv w) :
           obtain ⟨hsrv, hcl, C, hC, hr⟩ := h1.e1 h.origin (sid s) c 0 x _ hc hx hmem rfl
           simp only [] at hcl
           have horig : h.origin = cid m.client := by rw [hcl]; exact pid_eq_cid _ hsrv
-          refine ⟨MsgOk.of_clients ⟨C, by rw [hcl]; exact hC, hr⟩ hs.1.toHk.clients, ?_, ?_⟩
+          refine ⟨MsgOk.of_clients ⟨C, by rw [hcl]; exact hC, hr⟩ hs.1.toHk.clients, ?_, ?_, ?_, ?_⟩
           · intro V v' hV hv
             rw [hs.1.toHk.getSv_eq] at hV
-            exact h1.x.c3 s V m.client v' c x _ hV hv (horig ▸ hc) hx hmem
+            exact h1.x.cs.c3 s V m.client v' c x _ hV hv (horig ▸ hc) hx hmem
+          · intro V v' hV hv
+            rw [hs.1.toHk.getSv_eq] at hV
+            exact h1.x.cr.c3 s V m.client v' c x _ hV hv (horig ▸ hc) hx hmem
           · intro conn y e hcy hy he
             rw [← horig, hc'] at hcy; cases hcy
             rw [hx'] at hy; cases hy
-            have hpw := (h1.x.c2 h.origin (sid s) c 0 x hc hx rfl).sublist (hsuf.sublist.map _)
-            simp only [List.map_cons, List.pairwise_cons] at hpw
-            exact hpw.1 _ (List.mem_map.mpr ⟨e, he, rfl⟩)
+            have hpw := (h1.x.cs.c2 h.origin (sid s) c 0 x hc hx rfl).sublist (hsuf.sublist.map _)
+            have hpr := (h1.x.cr.c2 h.origin (sid s) c 0 x hc hx rfl).sublist (hsuf.sublist.map _)
+            simp only [List.map_cons, List.pairwise_cons] at hpw hpr
+            exact ⟨hpw.1 _ (List.mem_map.mpr ⟨e, he, rfl⟩), hpr.1 _ (List.mem_map.mpr ⟨e, he, rfl⟩)⟩
+          · intro C' q hC' hq
+            rw [hs.1.toHk.getCl_eq] at hC'
+            exact h1.f.f4 m.client C' q (sid s) c 0 x _ hC' hq (horig ▸ hc) hx hmem rfl
         split
         · split
           · refine ih _ ((h2.rcvRelease (sid s) h).activeFinish s _ _ _)
@@ -618,11 +633,18 @@ theorem Inv.opRecvReq {w : World} (hI : Inv w) (s a : Nat) : Inv (opRecvReq w s 
         · next w1 heq => rw [heq] at h1; exact h1
         · next w1 h m heq =>
           rw [heq] at h1 hm
-          obtain ⟨hmo, hlog1, hlog3⟩ := hm h m rfl
+          obtain ⟨hmo, hlog1s, hlog1, hlog3, hloan⟩ := hm h m rfl
           split
           · next V hV =>
-            have hnotin : (m.client, m.rid) ∉ V.gRecvReq := fun hin => Nat.lt_irrefl _ (hlog1 V m.rid hV hin)
-            refine h1.setSv s _ ?hact (h1.x.setSv_log hV rfl rfl rfl (fun v' hv => hlog1 V v' hV hv) hlog3 hmo) ?hy
+            have hnotin : (m.client, m.rid) ∉ V.gRecvReq := fun hin => hlog1 V m.rid hV hin rfl
+            refine h1.setSv s _ ?hact (h1.x.setSv_log hV rfl rfl rfl rfl (fun v' hv => hlog1 V v' hV hv)
+              (fun q' hq => hlog1s V q' hV hq) hlog3 hmo) ?hy
+              (h1.f.setSv' (s := s) rfl (fun _ => rfl) (fun _ => getSv_setSv _ _ _ _) (fun _ _ => rfl) (fun c v hv => by
+                rcases List.mem_append.mp hv with hv | hv
+                · exact Or.inl ⟨V, hV, hv⟩
+                · simp only [List.mem_singleton, Prod.mk.injEq] at hv
+                  obtain ⟨rfl, rfl⟩ := hv
+                  exact Or.inr hloan))
             case hy =>
               refine h1.y.setSv s _ (fun V0 hV0 x hx => by rw [hV] at hV0; cases hV0; exact List.mem_append_left _ hx) ?_ ?_ ?_ ?_
               · show (V.actives ++ [_]).Pairwise _
@@ -668,7 +690,7 @@ theorem Inv.opRecvReq {w : World} (hI : Inv w) (s a : Nat) : Inv (opRecvReq w s 
             rcases hA with hA | rfl
             · exact ⟨h1.a2 s V A hV hA, fun i C hi hC hex =>
                 ⟨h1.a1 s V A i C hV hA hi hC hex, fun S t hS ht => h1.j s V A i S t C hV hA hi hS ht hC hex⟩⟩
-            · refine ⟨hmo, fun i C hi hC hex => ?_⟩
+            · refine ⟨(let ⟨C, hC, h, _⟩ := hmo; ⟨C, hC, h⟩), fun i C hi hC hex => ?_⟩
               simp only [] at hi hC
               unfold sndConns at hi
               split at hi
@@ -695,7 +717,7 @@ theorem Inv.updActive {w : World} (hI : Inv w) (s a : Nat) (f : Active → Activ
   unfold ReqRes.updActive
   split
   · next V hV =>
-    refine hI.setSv_sub hV ?_ ?_ rfl rfl rfl
+    refine hI.setSv_sub hV ?_ ?_ rfl rfl rfl rfl
     · intro A' hA'
       simp only [List.mem_map] at hA'
       obtain ⟨A, hA, rfl⟩ := hA'
@@ -774,7 +796,8 @@ theorem Inv.respondDeliver {w : World} (hI : Inv w) (s : Nat) (A : Active) (e : 
     obtain ⟨V, hV, A', hA', e1, e2⟩ := hA
     have hV2 : getSv w2 s = some V := by rw [k2.getSv_eq]; exact hV
     refine h2.deliverTo _ _ _ _ (fun h => by rw [hkind] at h; cases h) (fun _ => ?_)
-      (fun h => by rw [hkind] at h; cases h) (fun c' s' V v _ ht' => by rw [ht'] at hkind; cases hkind) ?_
+      (fun h => by rw [hkind] at h; cases h) (fun c' s' V v _ ht' => by rw [ht'] at hkind; cases hkind)
+      (fun c' s' V v _ ht' => by rw [ht'] at hkind; cases hkind) (fun h => by rw [hkind] at h; cases h) ?_
     · rw [he, hst]
       unfold ReqRes.clientGone
       cases hcl : getCl w A.msg.client with
@@ -867,6 +890,52 @@ theorem Inv.sendResponse {w : World} (hI : Inv w) (s : Nat) (A : Active) (chunk 
       show A.gSent < A0.gSent + 1
       omega
 
+theorem findActive_mem {V : Server} {a : Nat} {A : Active} (h : findActive V a = some A) : A ∈ V.actives ∧ A.label = a := by
+  unfold findActive at h
+  refine ⟨List.mem_of_find?_eq_some h, ?_⟩
+  have := List.find?_some h
+  simp only [Bool.and_eq_true, decide_eq_true_eq] at this
+  exact this.1
+
+theorem findActiveAny_mem {V : Server} {a : Nat} {A : Active} (h : findActiveAny V a = some A) : A ∈ V.actives ∧ A.label = a := by
+  unfold findActiveAny at h
+  refine ⟨List.mem_of_find?_eq_some h, ?_⟩
+  have := List.find?_some h
+  simpa using this
+
+/-- `ActiveRequest::loan_chunk`: the invariant is kept, and after a successful loan the active request is
+still there with the same routing data and response counter -/
+theorem Inv.activeLoan {w : World} (hI : Inv w) (s a lpr : Nat) (A : Active) (V0 : Server) (hV0 : getSv w s = some V0)
+    (hA : A ∈ V0.actives) (hlab : A.label = a) :
+    Inv (activeLoan w s a lpr A).1 ∧
+    ∀ chunk, (activeLoan w s a lpr A).2.1 = some chunk → ActiveIn (activeLoan w s a lpr A).1 s A := by
+  unfold ReqRes.activeLoan
+  split
+  · exact ⟨hI, fun _ h => by simp at h⟩
+  · simp only []
+    have h1 := hI.updActive s a (fun x => { x with loans := x.loans + 1 }) (fun x => ⟨rfl, rfl, Nat.le_refl _⟩)
+    have hsv1 : ActiveIn (ReqRes.updActive w s a fun x => { x with loans := x.loans + 1 }) s A := by
+      obtain ⟨V', hV', hact⟩ := getSv_updActive_actives w s a (fun x => { x with loans := x.loans + 1 }) V0 hV0
+      refine ⟨V', hV', { A with loans := A.loans + 1 }, by rw [hact]; exact List.mem_map.mpr ⟨A, hA, by simp [hlab]⟩, rfl, rfl, rfl, rfl⟩
+    generalize ReqRes.updActive w s a (fun x => { x with loans := x.loans + 1 }) = w1 at h1 hsv1
+    have h2 := h1.retrieveReturned (sid s)
+    have k2 := (retrieveReturned_hk w1 (sid s)).1
+    generalize ReqRes.retrieveReturned w1 (sid s) = w2 at h2 k2
+    split
+    · exact ⟨h2, fun _ h => by simp at h⟩
+    · next S hS =>
+      split
+      · exact ⟨h2.updActive s a (fun x => { x with loans := x.loans - 1 }) (fun x => ⟨rfl, rfl, Nat.le_refl _⟩), fun _ h => by simp at h⟩
+      · exact ⟨h2.updActive s a (fun x => { x with loans := x.loans - 1 }) (fun x => ⟨rfl, rfl, Nat.le_refl _⟩), fun _ h => by simp at h⟩
+      · exact ⟨h2.panic, fun _ h => by simp at h⟩
+      · next S' chunk hal =>
+        have hk := allocate_key S
+        rw [hal] at hk
+        have h3 := h2.setSnd_same (S' := S') hS hk.1 hk.2
+        refine ⟨h3, fun _ _ => ?_⟩
+        obtain ⟨V, hV, rest⟩ := hsv1
+        exact ⟨V, by simp only [getSv_setSnd]; rw [k2.getSv_eq]; exact hV, rest⟩
+
 theorem Inv.opRespond {w : World} (hI : Inv w) (s a tag : Nat) : Inv (opRespond w s a tag).1 := by
   unfold ReqRes.opRespond
   split
@@ -875,35 +944,76 @@ theorem Inv.opRespond {w : World} (hI : Inv w) (s a tag : Nat) : Inv (opRespond 
     split
     · exact hI
     · next A hfind =>
-      have hA : A ∈ V0.actives := List.mem_of_find?_eq_some hfind
-      have hlab : A.label = a := by
-        have := List.find?_some hfind
-        simpa using this
+      obtain ⟨hA, hlab⟩ := findActive_mem hfind
+      obtain ⟨h1, hok⟩ := hI.activeLoan s a V0.loanPerReq A V0 hV0 hA hlab
+      split
+      · next w1 out heq => rw [heq] at h1; exact h1
+      · next w1 chunk _ heq =>
+        rw [heq] at h1 hok
+        have h1 : Inv w1 := h1
+        have hok : ActiveIn w1 s A := hok chunk rfl
+        exact h1.sendResponse s A chunk tag hok
+
+theorem Inv.reapActive {w : World} (hI : Inv w) (s a : Nat) : Inv (reapActive w s a) := by
+  unfold ReqRes.reapActive
+  split
+  · exact hI
+  · next V hV =>
+    exact hI.setSv_sub hV (fun A' hA' => ⟨A', (List.mem_filter.mp hA').1, rfl, rfl, Nat.le_refl _⟩)
+      ((hI.y.u1 s V hV).sublist List.filter_sublist) rfl rfl rfl rfl
+
+theorem Inv.opRLoan {w : World} (hI : Inv w) (s a l : Nat) : Inv (opRLoan w s a l).1 := by
+  unfold ReqRes.opRLoan
+  split
+  · exact hI
+  · next V0 hV0 =>
+    split
+    · exact hI
+    · next A hfind =>
       split
       · exact hI
-      · simp only []
-        have h1 := hI.updActive s a (fun x => { x with loans := x.loans + 1 }) (fun x => ⟨rfl, rfl, Nat.le_refl _⟩)
-        have hsv1 : ActiveIn (ReqRes.updActive w s a fun x => { x with loans := x.loans + 1 }) s A := by
-          obtain ⟨V', hV', hact⟩ := getSv_updActive_actives w s a (fun x => { x with loans := x.loans + 1 }) V0 hV0
-          refine ⟨V', hV', { A with loans := A.loans + 1 }, by rw [hact]; exact List.mem_map.mpr ⟨A, hA, by simp [hlab]⟩, rfl, rfl, rfl, rfl⟩
-        generalize ReqRes.updActive w s a (fun x => { x with loans := x.loans + 1 }) = w1 at h1 hsv1
-        have h2 := h1.retrieveReturned (sid s)
-        have k2 := (retrieveReturned_hk w1 (sid s)).1
-        generalize ReqRes.retrieveReturned w1 (sid s) = w2 at h2 k2
+      · obtain ⟨hA, hlab⟩ := findActive_mem hfind
+        obtain ⟨h1, _⟩ := hI.activeLoan s a V0.loanPerReq A V0 hV0 hA hlab
         split
-        · exact h2
-        · next S hS =>
+        · next w1 out heq => rw [heq] at h1; exact h1
+        · next w1 chunk _ heq =>
+          rw [heq] at h1
+          have h1 : Inv w1 := h1
           split
-          · exact h2.updActive s a (fun x => { x with loans := x.loans - 1 }) (fun x => ⟨rfl, rfl, Nat.le_refl _⟩)
-          · exact h2.updActive s a (fun x => { x with loans := x.loans - 1 }) (fun x => ⟨rfl, rfl, Nat.le_refl _⟩)
-          · exact h2.panic
-          · next S' chunk hal =>
-            have hk := allocate_key S
-            rw [hal] at hk
-            have h3 := h2.setSnd_same (S' := S') hS hk.1 hk.2
-            refine h3.sendResponse s A chunk tag ?_
-            obtain ⟨V, hV, rest⟩ := hsv1
-            exact ⟨V, by simp only [getSv_setSnd]; rw [k2.getSv_eq]; exact hV, rest⟩
+          · exact h1
+          · next V hV =>
+            exact h1.setSv_sub hV (fun A' hA' => ⟨A', hA', rfl, rfl, Nat.le_refl _⟩) (h1.y.u1 s V hV) rfl rfl rfl rfl
+
+theorem Inv.opRSend {w : World} (hI : Inv w) (s l tag : Nat) : Inv (opRSend w s l tag).1 := by
+  unfold ReqRes.opRSend
+  split
+  · exact hI
+  · next V hV =>
+    split
+    · exact hI
+    · next L hL =>
+      split
+      · exact hI
+      · next A hfind =>
+        obtain ⟨hA, hlab⟩ := findActiveAny_mem hfind
+        have h1 := hI.setSv_sub (V' := { V with rloans := V.rloans.filter (·.label ≠ l) }) hV
+          (fun A' hA' => ⟨A', hA', rfl, rfl, Nat.le_refl _⟩) (hI.y.u1 s V hV) rfl rfl rfl rfl
+        have hin : ActiveIn (ReqRes.setSv w s { V with rloans := V.rloans.filter (·.label ≠ l) }) s A :=
+          ⟨{ V with rloans := V.rloans.filter (·.label ≠ l) }, by rw [getSv_setSv]; exact if_pos rfl, A, hA, rfl, rfl, rfl, rfl⟩
+        exact (((h1.sendResponse s A L.chunk tag hin).reapActive s L.aLabel).serverDestroy s)
+
+theorem Inv.opRDrop {w : World} (hI : Inv w) (s l : Nat) : Inv (opRDrop w s l).1 := by
+  unfold ReqRes.opRDrop
+  split
+  · exact hI
+  · next V hV =>
+    split
+    · exact hI
+    · next L hL =>
+      have h1 := hI.setSv_sub (V' := { V with rloans := V.rloans.filter (·.label ≠ l) }) hV
+        (fun A' hA' => ⟨A', hA', rfl, rfl, Nat.le_refl _⟩) (hI.y.u1 s V hV) rfl rfl rfl rfl
+      exact (((((h1.updActive s L.aLabel (fun x => { x with loans := x.loans - 1 }) (fun x => ⟨rfl, rfl, Nat.le_refl _⟩)).sndReturnLoan
+        (sid s) L.chunk).reapActive s L.aLabel).serverDestroy s))
 
 theorem Inv.opDActive {w : World} (hI : Inv w) (s a : Nat) : Inv (opDActive w s a).1 := by
   unfold ReqRes.opDActive
@@ -913,10 +1023,8 @@ theorem Inv.opDActive {w : World} (hI : Inv w) (s a : Nat) : Inv (opDActive w s 
     split
     · exact hI
     · next A _ =>
-      have h1 := hI.setSv_sub (V' := { V with actives := V.actives.filter (·.label ≠ a) }) hV
-        (fun A' hA' => ⟨A', (List.mem_filter.mp hA').1, rfl, rfl, Nat.le_refl _⟩)
-        ((hI.y.u1 s V hV).sublist List.filter_sublist) rfl rfl rfl
-      exact (((h1.rcvRelease (sid s) A.det).activeFinish s A.connId A.msg.channel A.msg.rid).serverDestroy s)
+      exact ((((((hI.updActive s a (fun x => { x with live := false }) (fun x => ⟨rfl, rfl, Nat.le_refl _⟩)).reapActive s a).rcvRelease
+        (sid s) A.det).activeFinish s A.connId A.msg.channel A.msg.rid).serverDestroy s))
 
 /-- what is known about a response handed out by `PendingResponse::receive` of a pending response of
 client `c` on channel `ch` with request id `rid` -/
@@ -1039,7 +1147,7 @@ theorem Inv.opRecvResp {w : World} (hI : Inv w) (c r : Nat) : Inv (opRecvResp w 
           have hsame : ∀ P1 ∈ C.pendings, P1.rid = P.rid → P1 = P := fun P1 hP1 he =>
             mem_pairwise_rid (h1.cl2 c C hC) hP1 hP0 he
           refine h1.setCl_frame hC rfl rfl rfl (map_gRecv_keys _ _ _) ?_
-            (by simpa only [List.length_map] using h1.x.cl3 c C hC) ?_
+            (by simpa only [List.length_map] using h1.x.cl3 c C hC) ?_ rfl rfl rfl
           · intro P' hP' m' hm'
             simp only [List.mem_map] at hP'
             obtain ⟨P1, hP1, rfl⟩ := hP'
@@ -1114,7 +1222,7 @@ theorem Inv.opDResp {w : World} (hI : Inv w) (c k : Nat) : Inv (opDResp w c k).1
     · next h _ =>
       exact ((hI.setCl_frame (C' := { C with held := C.held.eraseIdx k }) hC rfl rfl rfl rfl
         (fun P hP m hm => hI.x.g1 c C P m hC hP hm) (hI.x.cl3 c C hC)
-        (hI.y.setCl_sub hC (fun P hP => Or.inl ⟨P, hP, rfl, rfl⟩))).rcvRelease (cid c) h).clientDestroy c
+        (hI.y.setCl_sub hC (fun P hP => Or.inl ⟨P, hP, rfl, rfl⟩)) rfl rfl rfl).rcvRelease (cid c) h).clientDestroy c
 
 theorem Inv.opDPending {w : World} (hI : Inv w) (c r : Nat) : Inv (opDPending w c r).1 := by
   unfold ReqRes.opDPending
@@ -1140,6 +1248,9 @@ theorem Inv.opDPending {w : World} (hI : Inv w) (c r : Nat) : Inv (opDPending w 
             exact ⟨P, hP, by simp⟩
           omega)
         (h1.y.setCl_sub hC1 (fun P' hP' => Or.inl ⟨P', (List.mem_filter.mp hP').1, rfl, rfl⟩))
+        (Nat.le_refl _)
+        (h1.f.setCl_sub hC1 (List.Sublist.refl _) (fun P' hP' => ⟨P', (List.mem_filter.mp hP').1, rfl⟩) (Nat.le_refl _)
+          (h1.f.f6 c C hC1))
       exact ((h2.sndReturnLoan (cid c) P.chunk).clientDestroy c)
 
 theorem Inv.opHint {w : World} (hI : Inv w) (c r : Nat) : Inv (opHint w c r).1 := by
@@ -1217,6 +1328,12 @@ theorem Inv.step {w : World} (hI : Inv w) (op : Op) : Inv (step w op).1 := by
   | hasreq s => exact hI.opHasReq s
   | updC c => exact hI.opUpdC c
   | updS s => exact hI.opUpdS s
+  | qloan c l => exact hI.opQLoan c l
+  | qsend c l r tag => exact hI.opQSend c l r tag
+  | qdrop c l => exact hI.opQDrop c l
+  | rloan s a l => exact hI.opRLoan s a l
+  | rsend s l tag => exact hI.opRSend s l tag
+  | rdrop s l => exact hI.opRDrop s l
 
 /-- the invariant holds in every reachable state -/
 theorem inv_of_reach {c : Cfg} {w : World} (h : Reach c w) : Inv w := by
